@@ -237,3 +237,73 @@ func (e *env) pipeTrial(p *pathDef, n, t int) {
 
 	e.r.Bucket(fmt.Sprintf("pipelimit_trials:%s:n=%d", p.name, n), 1)
 }
+
+// doqLongLived sends many more queries than the per-connection stream limit
+// (100) one after the other over single DoQ connections, closing the send side
+// of each stream a few milliseconds after the query was written, so that the
+// FIN travels in a later packet than the query.  Every query must be answered.
+func (e *env) doqLongLived() {
+	r := e.r
+	p := &pathDef{name: "doq-long-lived", family: famDoQ}
+
+	const (
+		conns    = 2
+		finDelay = 5 * time.Millisecond
+	)
+	perConn := r.N(160, 500)
+
+	var mu sync.Mutex
+	maxAttempted := 0
+
+	wg := &sync.WaitGroup{}
+	for c := 0; c < conns; c++ {
+		wg.Add(1)
+		go func(c int) {
+			defer wg.Done()
+			defer func() {
+				if v := recover(); v != nil {
+					r.Inconclusive(fmt.Sprintf("harness panic in the long-lived DoQ worker: %v", v))
+				}
+			}()
+
+			qc, err := e.b.DialDoQ()
+			if err != nil {
+				e.infraFailure(p.name+":dial", err)
+
+				return
+			}
+			defer func() { _ = qc.Close() }()
+
+			attempted := 0
+			for j := 0; j < perConn; j++ {
+				in := genPlain(r, "long", c*perConn+j, e.salt)
+				exp := expect(p, in)
+
+				attempted++
+				o := observation{res: qc.ExchangeLateFIN(in.wire, finDelay, e.answerWait)}
+				if o.res.Outcome == tbench.QUICError &&
+					(o.res.QUICKind != "application" || !o.res.QUICRemote || o.res.SendElapsed > decisiveWindow) {
+					// Idle timeouts and the like, or the harness itself took
+					// longer than the server allows a stream to deliver its
+					// query.
+					o.ambiguous = "QUIC connection failed: " + o.res.String()
+				}
+
+				e.account(p, in, exp, o)
+				if o.res.Outcome != tbench.Answered {
+					// The connection is of no further use; one report is enough.
+					break
+				}
+			}
+
+			mu.Lock()
+			maxAttempted = max(maxAttempted, attempted)
+			mu.Unlock()
+		}(c)
+	}
+
+	wg.Wait()
+
+	r.Bucket("doq_long_lived_max_streams_attempted_on_one_connection", int64(maxAttempted))
+	r.Require("doq_long_lived_max_streams_attempted_on_one_connection", 101)
+}
